@@ -43,6 +43,38 @@ def B(x):
     return "true" if x else "false"
 
 
+def build_c28(ctx, race=False):
+    """go build of harness/c28 with an overlay that contains ONLY this check's files (harness/c28, harness/vh, hooks named c28_*):
+    the shared ctx.build_harness maps every property's hook files into the tree, so a change in /repo that breaks ANOTHER
+    property's hook (e.g. c31's hook into internal/wazero) would keep this harness from building and hide the concrete failure."""
+    out = os.path.join(vlib.BUILD, "bin", "c28" + ("_race" if race else ""))
+    os.makedirs(os.path.dirname(out), exist_ok=True)
+    keep = {}
+    for virt, real in vlib.overlay_map().items():
+        rel = os.path.relpath(real, os.path.join(vlib.VERIF, "harness"))
+        if rel.startswith(("c28" + os.sep, "vh" + os.sep)) or (rel.startswith("hooks" + os.sep) and os.path.basename(real).startswith("c28_")):
+            keep[virt] = real
+    ov = os.path.join(vlib.BUILD, "overlay.c28.%d.json" % os.getpid())
+    with open(ov, "w") as f:
+        json.dump({"Replace": keep}, f, indent=1)
+    cmd = ["go", "build", "-tags", "verif", "-overlay", ov, "-o", out]
+    env = dict(vlib.GOENV)
+    if race:
+        cmd.insert(2, "-race")
+        env["CGO_ENABLED"] = "1"
+    cmd.append("./internal/zz_verif/c28")
+    try:
+        with vlib.Lock("go.c28"):
+            if os.path.exists(out):
+                os.remove(out)
+            rc, o = vlib.sh(cmd, cwd=vlib.REPO, env=env, timeout=1200)
+    finally:
+        os.remove(ov)
+    if rc != 0:
+        raise vlib.InfraError("go build of harness c28 failed:\n%s" % o[-6000:])
+    return out
+
+
 def lean_str(s):
     return '"' + s.replace("\\", "\\\\").replace('"', '\\"') + '"'
 
@@ -188,6 +220,9 @@ def _candidates(ctx, n):
         if p.endswith(".wa.go"):
             jobs.append(("build", p, ""))
             jobs.append(("run", p, ""))
+        elif os.path.basename(p).startswith("out_"):          # distinctive outputs of different lengths
+            jobs.append(("run", p, ""))
+            jobs.append(("runwasm", p, ""))
     mat = [x for x in matrix.all_programs() if x[0][1] not in ("methodval", "methodmix")]   # those do not validate (C16's finding)
     ctx.rng.shuffle(mat)
     seen_t = set()
@@ -204,6 +239,8 @@ def _candidates(ctx, n):
         p = os.path.join(d, "m_%s_%s.wa.go" % (t, c))
         open(p, "w").write(src)
         op = ops[i % len(ops)]
+        if i % 7 == 3:
+            op = "buildfset"
         jobs.append((op, p, ctx.rng.choice(["", "", "js", "unknown"]) if op == "build" else ""))
         i += 1
         if i % 6 == 0 and ex:
@@ -212,7 +249,7 @@ def _candidates(ctx, n):
 
 
 def parse_run(out):
-    r = {"base": {}, "wrong": [], "panic": [], "unstable": [], "done": None, "uni": {}, "blocked": []}
+    r = {"base": {}, "wrong": [], "panic": [], "unstable": [], "done": None, "uni": {}, "blocked": [], "mutated": [], "retained": {}}
     for ln in out.splitlines():
         f = ln.split()
         if not f:
@@ -226,6 +263,10 @@ def parse_run(out):
             r["panic"].append({"job": int(f[1]), "goroutine": int(f[2]), "iter": int(f[3]), "msg": bytes.fromhex(f[4]).decode("utf-8", "replace")})
         elif f[0] == "UNSTABLE":
             r["unstable"].append(int(f[1]))
+        elif f[0] == "MUTATED":
+            r["mutated"].append({"job": int(f[1]), "detail": bytes.fromhex(f[2]).decode("utf-8", "replace")})
+        elif f[0] == "RETAINED-CHECK":
+            r["retained"][f[1]] = dict(kv.split("=") for kv in f[2:])
         elif f[0] == "BLOCKED":
             r["blocked"].append({"job": int(f[1]), "goroutine": int(f[2]), "iter": int(f[3]), "phase": f[4],
                                  "after": bytes.fromhex(f[5]).decode("utf-8", "replace") if len(f) > 5 else ""})
@@ -277,10 +318,10 @@ def parse_races(err):
 def run(ctx):
     tm = {}
     t = time.time()
-    h = ctx.build_harness("c28")
+    h = build_c28(ctx)
     hr = None
     try:
-        hr = ctx.build_harness("c28", race=True)
+        hr = build_c28(ctx, race=True)
     except vlib.InfraError as e:
         ctx.notes.append("race build unavailable: %s" % str(e)[-300:])
     tm["build_s"] = round(time.time() - t, 1); t = time.time()
@@ -397,6 +438,18 @@ def run(ctx):
             uni_growth = (r["uni"].get("UNIVERSE-CHILDREN-AFTER-BASELINE"), r["uni"]["UNIVERSE-CHILDREN-AT-END"])
         for u in r["unstable"]:
             ctx.notes.append("job %s is not stable sequentially (excluded; C27's concern)" % jname(jobs[u]))
+        dist["retained_results_rechecked"] = dist.get("retained_results_rechecked", 0) + sum(int(v.get("checked", 0)) for v in r["retained"].values())
+        if r["mutated"]:
+            m0 = r["mutated"][0]
+            what_kind = m0["detail"].split(" returned by")[0]
+            dist["mutated"] = dist.get("mutated", 0) + len(r["mutated"])
+            caches = [g for g in (fsum.get("new_or_changed") or []) if "shared-cache" in g.get("kinds", [])]
+            ctx.violation("result-mutated-after-return:" + re.sub(r"[^A-Za-z.]+", "-", what_kind),
+                          "a slice returned by an API call changed its bytes AFTER the call had returned (run mode %s, %d such results): job %d (%s): %s. "
+                          "The caller's result aliases memory the library reuses for later calls%s"
+                          % (mode, len(r["mutated"]), m0["job"], jname(jobs[m0["job"]]), m0["detail"][:500],
+                             ("; static fact: new package-level cache %s" % caches[0]["global"]) if caches else ""),
+                          job_replay({"mode": mode, "mutated": r["mutated"][:5]}, seed, G, iters))
         if r["blocked"]:
             b = r["blocked"][0]
             dist["blocked"] += 1
